@@ -176,7 +176,7 @@ class AsyncSocket(base_socket.BaseSocket):
                 return
             decoded_pkt = packet.Packet(encoded_packet=pkt)
             if decoded_pkt.packet_type != packet.PING or \
-                    decoded_pkt.data != 'probe':
+                    decoded_pkt.data != 'probe' or self.upgraded:
                 self.server.logger.info(
                     '%s: Failed websocket upgrade, no PING packet', self.sid)
                 self.upgrading = False
@@ -190,7 +190,7 @@ class AsyncSocket(base_socket.BaseSocket):
                 self.upgrading = False
                 return
             decoded_pkt = packet.Packet(encoded_packet=pkt)
-            if decoded_pkt.packet_type != packet.UPGRADE:
+            if decoded_pkt.packet_type != packet.UPGRADE or self.upgraded:
                 self.server.logger.info(
                     ('%s: Failed websocket upgrade, expected UPGRADE packet, '
                      'received %s instead.'),
